@@ -303,13 +303,18 @@ Definition side_judge
    (let w (x : mbox) (o : Q * Q * Q) := let '(m1, i, m2) := o in (m_pb x + m1 + i + m2)%Q in
     let wa := w a oa in let wb := w b ob in let wc := w c0 oc in
     let eps := (1 # 1000)%Q in
+    let nonneg := Qle_bool 0 wa && Qle_bool 0 wb && Qle_bool 0 wc in
     if content_ok_b a && content_ok_b b && content_ok_b c0 && fits_possible_b avail a b c0 gb then
-      (if (negb ga || (Qle_bool (0 - eps) pa && Qle_bool (pa + wa) (avail + eps)))
-          && (negb gb || (Qle_bool (0 - eps) pb_ && Qle_bool (pb_ + wb) (avail + eps)
-                          && qnear (pb_ + wb / 2) (avail / 2)))
-          && (negb gc || (Qle_bool (0 - eps) pc && Qle_bool (pc + wc) (avail + eps)))
+      (if (negb gb || qnear (pb_ + wb / 2) (avail / 2))
+          (* no overlap along the side *)
           && (negb (ga && gb) || Qle_bool (pa + wa) (pb_ + eps))
           && (negb (gb && gc) || Qle_bool (pb_ + wb) (pc + eps))
           && (negb (ga && gc) || Qle_bool (pa + wa) (pc + eps))
+          (* inside the side, unless a negative margin makes an outer size negative (css-page-3 then lets the
+             neighbour grow by that much) *)
+          && (negb nonneg ||
+              ((negb ga || (Qle_bool (0 - eps) pa && Qle_bool (pa + wa) (avail + eps)))
+               && (negb gb || (Qle_bool (0 - eps) pb_ && Qle_bool (pb_ + wb) (avail + eps)))
+               && (negb gc || (Qle_bool (0 - eps) pc && Qle_bool (pc + wc) (avail + eps)))))
        then 0 else 2)
     else 0))%nat.
